@@ -8,6 +8,7 @@ and skipped - the corpus tests the checker, it is not itself a check of the repo
 from __future__ import annotations
 
 import concurrent.futures as cf
+import json
 import os
 import shutil
 import subprocess
@@ -1049,6 +1050,17 @@ M("C04", "R-split-rewritten", EXTF,
                 new_stored_crops_eaten = cf_eaten - cf_produced
                 immediately_eaten = cf_eaten - new_stored_crops_eaten''', None)
 
+M("C04", "split-vectorised-drops-small-draws", EXTF,
+  '        immediately_eaten_output = []\n        new_stored_eaten_output = []\n        cf_produced_output = []\n        for month in range(0, self.constants["NMONTHS"]):\n            cf_produced = crops_kcals_produced[month]\n            cf_produced_output.append(cf_produced)\n            # print("")\n            # print("cf_produced")\n            # print(cf_produced)\n            cf_eaten = crops_food_eaten[month].varValue\n            # print("cf_eaten")\n            # print(cf_eaten)\n\n            if cf_produced <= cf_eaten:\n                immediately_eaten = cf_produced\n                new_stored_crops_eaten = cf_eaten - cf_produced\n            else:\n                immediately_eaten = cf_eaten\n                new_stored_crops_eaten = 0\n            # print("immediately_eaten")\n            # print(immediately_eaten)\n            # print("new_stored_crops_eaten")\n            # print(new_stored_crops_eaten)\n            immediately_eaten_output.append(immediately_eaten * conversion)\n            new_stored_eaten_output.append(new_stored_crops_eaten * conversion)\n',
+  '        NMONTHS = self.constants["NMONTHS"]\n        cf_produced = np.array(crops_kcals_produced[:NMONTHS], dtype=float)\n        cf_eaten = np.array(\n            [crops_food_eaten[month].varValue for month in range(0, NMONTHS)]\n        )\n        immediately_eaten = np.minimum(cf_produced, cf_eaten)\n        new_stored_crops_eaten = np.where(cf_eaten - cf_produced > 0.5, cf_eaten - cf_produced, 0)\n        immediately_eaten_output = list(immediately_eaten * conversion)\n        new_stored_eaten_output = list(new_stored_crops_eaten * conversion)\n', "C04.SPLIT")
+M("C04", "R-split-vectorised", EXTF,
+  '        immediately_eaten_output = []\n        new_stored_eaten_output = []\n        cf_produced_output = []\n        for month in range(0, self.constants["NMONTHS"]):\n            cf_produced = crops_kcals_produced[month]\n            cf_produced_output.append(cf_produced)\n            # print("")\n            # print("cf_produced")\n            # print(cf_produced)\n            cf_eaten = crops_food_eaten[month].varValue\n            # print("cf_eaten")\n            # print(cf_eaten)\n\n            if cf_produced <= cf_eaten:\n                immediately_eaten = cf_produced\n                new_stored_crops_eaten = cf_eaten - cf_produced\n            else:\n                immediately_eaten = cf_eaten\n                new_stored_crops_eaten = 0\n            # print("immediately_eaten")\n            # print(immediately_eaten)\n            # print("new_stored_crops_eaten")\n            # print(new_stored_crops_eaten)\n            immediately_eaten_output.append(immediately_eaten * conversion)\n            new_stored_eaten_output.append(new_stored_crops_eaten * conversion)\n',
+  '        NMONTHS = self.constants["NMONTHS"]\n        cf_produced = np.array(crops_kcals_produced[:NMONTHS], dtype=float)\n        cf_eaten = np.array(\n            [crops_food_eaten[month].varValue for month in range(0, NMONTHS)]\n        )\n        immediately_eaten = np.minimum(cf_produced, cf_eaten)\n        new_stored_crops_eaten = np.maximum(cf_eaten - cf_produced, 0)\n        immediately_eaten_output = list(immediately_eaten * conversion)\n        new_stored_eaten_output = list(new_stored_crops_eaten * conversion)\n', None)
+M("C04", "table-kept-when-file-exists", INTF,
+  '''            file_location = str(Path(repo_root) / "results" / filename)
+            df.to_csv(file_location)''', '''            file_location = str(Path(repo_root) / "results" / filename)
+            if not os.path.exists(file_location):
+                df.to_csv(file_location)''', "C04.CSV")
 # ---------------------------------------------------------------------------- C03
 FABF = "src/food_system/feed_and_biofuels.py"
 VALF = "src/optimizer/validate_results.py"
@@ -1581,6 +1593,48 @@ M("C09", "R-else-arm-float-zeros", OCF,
 
         self.production = Food(''', None)
 
+
+# ---------------------------------------------------------------------------- added after the sub-agent seeded defects
+M("C18", "cap-uses-max", PARF, '        if (\n            interpreted_results_round1.percent_people_fed\n            > MINIMUM_PERCENT_FED_BEFORE_NONHUMAN_CONSUMPTION_ALLOWED\n        ):\n            kcals_daily_maximum = (\n                constants_inputs["NUTRITION"]["KCALS_DAILY"]\n                * fraction_to_feed_people_first\n            )\n\n        else:\n            kcals_daily_maximum = constants_inputs["NUTRITION"]["KCALS_DAILY"] * (\n                interpreted_results_round1.percent_people_fed / 100\n            )\n', '        kcals_daily_maximum = constants_inputs["NUTRITION"]["KCALS_DAILY"] * max(\n            fraction_to_feed_people_first,\n            interpreted_results_round1.percent_people_fed / 100,\n        )\n', "C18.CAP")
+M("C18", "R-cap-written-with-min", PARF, '        if (\n            interpreted_results_round1.percent_people_fed\n            > MINIMUM_PERCENT_FED_BEFORE_NONHUMAN_CONSUMPTION_ALLOWED\n        ):\n            kcals_daily_maximum = (\n                constants_inputs["NUTRITION"]["KCALS_DAILY"]\n                * fraction_to_feed_people_first\n            )\n\n        else:\n            kcals_daily_maximum = constants_inputs["NUTRITION"]["KCALS_DAILY"] * (\n                interpreted_results_round1.percent_people_fed / 100\n            )\n', '        kcals_daily_maximum = constants_inputs["NUTRITION"]["KCALS_DAILY"] * min(\n            fraction_to_feed_people_first,\n            interpreted_results_round1.percent_people_fed / 100,\n        )\n', None)
+M("C11", "predicate-early-return-skips-protein", FOODF, '        return (\n            (self.kcals <= other.kcals).all()\n            and ((self.fat <= other.fat).all() or self.conversions.exclude_fat)\n            and (\n                (self.protein <= other.protein).all()\n                or self.conversions.exclude_protein\n            )\n        )\n\n    def any_greater_than_or_equal_to(self, other):', '        if not (self.kcals <= other.kcals).all():\n            return False\n        if not self.conversions.exclude_fat:\n            if not (self.fat <= other.fat).all():\n                return False\n            return True\n        return (self.protein <= other.protein).all() or self.conversions.exclude_protein\n\n    def any_greater_than_or_equal_to(self, other):', "C11.PRED")
+M("C11", "R-predicate-early-returns", FOODF, '        return (\n            (self.kcals <= other.kcals).all()\n            and ((self.fat <= other.fat).all() or self.conversions.exclude_fat)\n            and (\n                (self.protein <= other.protein).all()\n                or self.conversions.exclude_protein\n            )\n        )\n\n    def any_greater_than_or_equal_to(self, other):', '        if not (self.kcals <= other.kcals).all():\n            return False\n        if not self.conversions.exclude_fat:\n            if not (self.fat <= other.fat).all():\n                return False\n        return (self.protein <= other.protein).all() or self.conversions.exclude_protein\n\n    def any_greater_than_or_equal_to(self, other):', None)
+M("C11", "clip-writes-through-asarray-view", FOODF,
+  '''                kcals=np.where(self.kcals < 0, 0, self.kcals),''',
+  '''                kcals=_clip0(np.asarray(self.kcals, dtype=float)),''', "C11.PURE",
+  more=[(FOODF, '''            # Validate the food object
+            self.validate_if_list()
+            # Create a new food object with negative values replaced with zero''', '''            # Validate the food object
+            self.validate_if_list()
+            view = np.asarray(self.fat, dtype=float)
+            view[view < 0] = 0
+            # Create a new food object with negative values replaced with zero''')])
+M("C14", "population-table-memoised", ANIMF,
+  '''class AnimalDataReader:
+    def read_animal_population_data(filename):''', '''class AnimalDataReader:
+    @functools.lru_cache(maxsize=None)
+    def read_animal_population_data(filename):''', "C14.STATE",
+  more=[(ANIMF, '''from pathlib import Path
+import pandas as pd''', '''from pathlib import Path
+import functools
+import pandas as pd''')])
+M("C14", "R-options-table-memoised", ANIMF,
+  '''    def read_animal_options(filename):''', '''    @functools.lru_cache(maxsize=None)
+    def read_animal_options(filename):''', None,
+  more=[(ANIMF, '''from pathlib import Path
+import pandas as pd''', '''from pathlib import Path
+import functools
+import pandas as pd''')])
+M("C13", "override-lands-in-memoised-table", ANIMF,
+  '''class AnimalDataReader:
+    def read_animal_population_data(filename):''', '''class AnimalDataReader:
+    @functools.cache
+    def read_animal_population_data(filename):''', "C13.OVERRIDE",
+  more=[(ANIMF, '''from pathlib import Path
+import pandas as pd''', '''from pathlib import Path
+import functools
+import pandas as pd''')])
+
 # ---------------------------------------------------------------------------- runner
 
 COPY = ["src", "scenarios", "scripts", "plot_manuscript_figures.py", "tests"]
@@ -1667,8 +1721,54 @@ def _run_one(m, base_known):
         shutil.rmtree(tmp, ignore_errors=True)
 
 
+SEEDED_DIR = os.path.join(VERIF, "seeded")
+
+
+def seeded_for(pid):
+    """sub-agent-written defects kept under /verif/seeded/<id>/ (patch.diff + meta.json); an entry is replayed for every
+    property listed in its meta.json `caught_by`"""
+    out = []
+    if not os.path.isdir(SEEDED_DIR):
+        return out
+    for d in sorted(os.listdir(SEEDED_DIR)):
+        mp = os.path.join(SEEDED_DIR, d, "meta.json")
+        if not os.path.exists(mp):
+            continue
+        with open(mp) as f:
+            meta = json.load(f)
+        for c in meta.get("caught_by", []):
+            if c["property"] == pid:
+                out.append({"pid": pid, "name": "seeded:" + d, "patch": os.path.join(SEEDED_DIR, d, "patch.diff"), "expect": c["rule"]})
+    return out
+
+
+def _run_seeded(m):
+    tmp = tempfile.mkdtemp(prefix="allfedsa_seed_")
+    try:
+        _make_scratch(tmp)
+        p = subprocess.run(["git", "apply", "--unsafe-paths", "--directory", tmp, m["patch"]], cwd=tmp, capture_output=True, text=True)
+        if p.returncode != 0:
+            p = subprocess.run(["patch", "-p1", "-s", "-i", m["patch"]], cwd=tmp, capture_output=True, text=True)
+            if p.returncode != 0:
+                return m["name"], "stale", "patch no longer applies: " + (p.stderr or p.stdout)[:200]
+        env = dict(os.environ)
+        env["ALLFEDSA_REPO"] = tmp
+        env["ALLFEDSA_EVIDENCE_DIR"] = os.path.join(tmp, "_evidence")
+        p = subprocess.run([sys.executable, "-m", "allfedsa.cli", m["pid"], "--tier", "quick"], cwd=VERIF, env=env,
+                           capture_output=True, text=True)
+        out = p.stdout
+        hit = p.returncode == 1 and any(l.strip().startswith(m["expect"] + " ") for l in out.splitlines()) and "VIOLATION property=" in out
+        if hit:
+            return m["name"], "killed", ""
+        return m["name"], "survived", f"rc={p.returncode} " + " | ".join(
+            l.strip() for l in out.splitlines() if "VIOLATION" in l or "ANALYSIS-ERROR" in l or l.startswith("  C"))[:600]
+    finally:
+        shutil.rmtree(tmp, ignore_errors=True)
+
+
 def run(pid, jobs=None, only=None):
     ms = [m for m in CORPUS if m["pid"] == pid and (only is None or m["name"] in only)]
+    ms += [m for m in seeded_for(pid) if only is None or m["name"] in only]
     res = {"mutants": 0, "killed": 0, "refactors": 0, "silent": 0, "survived": [], "noisy": [], "stale": []}
     if not ms:
         return res
@@ -1681,7 +1781,7 @@ def run(pid, jobs=None, only=None):
         shutil.rmtree(tmpev, ignore_errors=True)
     jobs = jobs or min(16, os.cpu_count() or 4)
     with cf.ThreadPoolExecutor(max_workers=jobs) as ex:
-        futs = [ex.submit(_run_one, m, base_known) for m in ms]
+        futs = [ex.submit(_run_seeded, m) if "patch" in m else ex.submit(_run_one, m, base_known) for m in ms]
         for m, fu in zip(ms, futs):
             name, status, info = fu.result()
             if m["expect"] is None:
